@@ -92,4 +92,10 @@ theorem C08_src_roundtrip (f : Frame) (h : f.CanCanonical) :
     (match Src.toCan f with | .ok c => Src.fromCan c | .err e => .err e | .panic => .panic) = .ok f := by
   rw [Ross.src_toCan_eq]; exact C08_src_fromCan_toCan f h
 
+/-! non-vacuity (kernel-evaluated on the **translated** codec): the identifier of a multi-frame start frame announcing 0x123
+frames from device 0x4567, and its decoding -/
+example :
+    let f : Frame := ⟨true, true, true, true, 0x123, 0x4567, 3, [0x23, 7, 8, 0, 0, 0, 0, 0]⟩
+    Src.toCan f = .ok ⟨true, 0x1c014567, false, 3, [0x23, 7, 8]⟩ ∧ Src.fromCan ⟨true, 0x1c014567, false, 3, [0x23, 7, 8]⟩ = .ok f := by decide
+
 end Ross.Props
